@@ -28,6 +28,8 @@ func spendCheck() *hx.Violation {
 	n := sim.N
 	created := map[string]bool{}
 	spentBy := map[string]string{}
+	seenTx := map[string]uint32{}
+	var repeated *hx.Violation
 	for _, h := range n.ActiveChain() {
 		b := n.Block(h)
 		if b == nil {
@@ -35,6 +37,19 @@ func spendCheck() *hx.Violation {
 		}
 		for _, tx := range b.Transactions {
 			id := regnet.ID(tx.Hash())
+			if h0, dup := seenTx[id]; dup {
+				// the same transaction hash twice on one chain: its outpoints are created a second time
+				// (reported as its own kind; the outpoints count as new from here on)
+				if repeated == nil {
+					repeated = &hx.Violation{Kind: "transaction-hash-repeated-on-active-chain",
+						Detail: fmt.Sprintf("%s at heights %d and %d", id, h0, b.Height)}
+				}
+				for i := range tx.Outputs() {
+					in := ctypes.Input{Previous: ctypes.OutPoint{TxID: tx.Hash(), Index: uint16(i)}}
+					delete(spentBy, in.ReferKey())
+				}
+			}
+			seenTx[id] = b.Height
 			if !tx.IsCoinBaseTx() {
 				for _, in := range tx.Inputs() {
 					k := in.ReferKey()
@@ -54,6 +69,9 @@ func spendCheck() *hx.Violation {
 				created[in.ReferKey()] = true
 			}
 		}
+	}
+	if repeated != nil {
+		return repeated
 	}
 	poolUse := map[string]string{}
 	for _, tx := range n.Pool.GetTxsInPool() {
@@ -196,28 +214,29 @@ func witnessDupCoinbase(g *hx.Gen) {
 	}
 	cb := b1.Transactions[0]
 	co := regnet.Coin{ID: regnet.ID(cb.Hash()), Idx: 1, Addr: 1, Value: int64(cb.Outputs()[1].Value), Height: 1, CB: true}
-	h.Watch = append(h.Watch, co.ID)
+	// GetTransaction answers the later block for a repeated hash; the witness observes the unspent list only
+	obs := func() { g.Emit("obs c p a1 b1 a2 b2 a3 b3 u%s", co.ID) }
 	spend1 := transferOf(co, 2, 1<<46+3)
 	b4 := h.Block(br, []interfaces.Transaction{spend1}, regnet.MineOpts{Miner: 2})
 	h.Deliver(b4)
 	br = regnet.Extend(br, b4)
-	h.Observe(true, 6)
+	obs()
 	b5 := h.Block(br, nil, regnet.MineOpts{Miner: 2})
 	h.Deliver(b5)
 	br = regnet.Extend(br, b5)
 	b6 := h.Block(br, nil, regnet.MineOpts{CoinbaseOf: b1})
 	h.Deliver(b6)
 	br6 := regnet.Extend(br, b6)
-	h.Observe(true, 6)
+	obs()
 	spend2 := transferOf(co, 3, 1<<46+4)
 	g.Emit("submit %s", sim.N.DescribeTx(spend2))
 	b7 := h.Block(br6, []interfaces.Transaction{spend2}, regnet.MineOpts{Miner: 2})
 	h.Deliver(b7)
-	h.Observe(true, 6)
+	obs()
 	// the same block 7 on the honest parent (if block 6 was refused)
 	b6h := h.Block(br, nil, regnet.MineOpts{Miner: 2})
 	h.Deliver(b6h)
-	h.Observe(true, 6)
+	obs()
 }
 
 func history(g *hx.Gen, steps int) {
